@@ -318,8 +318,10 @@ func blockOnListChangeWorker(
 		ctx.l.Tracef("waiting for %s to get a list item until %s", keyNameStr(), end.Format(time.StampMilli))
 	}
 
+	verifPoint("before-register", ctx.cs)
 	ws := blockFn()
 	defer ctx.dsc.ds.leaveListBlock(ws)
+	verifPoint("after-register", ctx.cs)
 
 	// with notification registered, try operation again immediately
 	output = op()
@@ -335,8 +337,10 @@ func blockOnListChangeWorker(
 			waitTimer := time.NewTimer(timeout)
 			defer waitTimer.Stop()
 
+			verifPoint("before-capture", ctx.cs)
 			unblockCh := ctx.cs.capture()
 			defer ctx.cs.releaseCapture()
+			verifPoint("before-wait", ctx.cs)
 
 			select {
 			case reason := <-unblockCh:
@@ -352,6 +356,7 @@ func blockOnListChangeWorker(
 				return true
 			case <-ws.ready:
 				// acquire completed
+				verifPoint("after-wake", ctx.cs)
 				return false
 			}
 		}() {
@@ -365,6 +370,7 @@ func blockOnListChangeWorker(
 			return
 		}
 		// a different client obtained the list element before this client could, so try again
+		verifPoint("after-failed-retry", ctx.cs)
 	}
 }
 
